@@ -149,4 +149,22 @@ theorem closeLegacy_can_panic : ∃ s, CReach CStepOld s ∧ s.panicked = true :
   have r4 : CReach CStepOld s4 := .step _ _ r3 (.close s3 1 (by simp [s3, s2, s1, s0, setPc]))
   exact ⟨s4, r4, by simp [s4, s3]⟩
 
+/-! ### the dual provider wrapper -/
+
+/-- whatever the two sides do and in whatever order they finish, `runOnBoth` (hence the wrapper's Close) has returned
+    only if both providers are done -/
+theorem runOnBoth_waits_for_both (s : BSt) (h : BReach BStep s) : s.returned = true → s.wanDone = true ∧ s.lanDone = true := by
+  induction h with
+  | init => intro hr; cases hr
+  | step s s' _ hs ih =>
+    cases hs with
+    | wan err hw => intro hr; have := ih hr; simp [hw] at this
+    | lan hl => intro hr; have := ih hr; simp [hl] at this
+    | ret h1 h2 => intro _; exact ⟨h1, h2⟩
+
+/-- the seeded variant returns while the LAN provider is still closing -/
+theorem runOnBoth_early_return : ∃ s, BReach BStepEarly s ∧ s.returned = true ∧ s.lanDone = false :=
+  ⟨{ wanDone := true, wanErr := true, lanDone := false, returned := true },
+   .step _ _ (.step _ _ .init (.wan {} true rfl)) (.ret _ rfl (.inr rfl)), rfl, rfl⟩
+
 end KadDHT.C14
